@@ -125,7 +125,7 @@ class Run:
     def run_native(self, unit, inst, check):
         """Engine N: bounded stand-in - a native exhaustive loop over a stated window calling the REAL C++ function
         (DESIGN 3.5 engine B).  Never counted as proved; a failing case is a genuine failing input."""
-        kf = [k for k in load_known() if k.get('status') == 'open' and k['property'] == self.prop and k['unit'] == unit.name and k['check'] == check.name]
+        kf = [k for k in load_known() if k.get('status') == 'open' and k['property'] == self.prop and fnmatch.fnmatch(unit.name, k['unit']) and k['check'] == check.name]
         src = ''.join('#define %s 1\n' % k['carve_define'] for k in kf) + check.native
         exe = build_native(unit, inst, self.wd, src, 'native_' + check.name, sanitize='sanitize' in check.flags)
         t0 = time.time()
@@ -222,7 +222,7 @@ class Run:
             json.dump(rec, f, indent=1, default=str)
         # known finding?
         for kf in known:
-            if kf.get('status') != 'open' or kf['property'] != self.prop or kf['unit'] != unit.name:
+            if kf.get('status') != 'open' or kf['property'] != self.prop or not fnmatch.fnmatch(unit.name, kf['unit']):
                 continue
             if not fnmatch.fnmatch(inst[0], kf.get('inst', '*')) or kf['check'] != check.name:
                 continue
@@ -421,8 +421,12 @@ def cmd_check(prop, tier, only_unit=None, only_inst=None, verbose=False):
                     '%s.%s.%s' % (u.name, inst[0], c.name), len(res['obligations']), len(bad), res['seconds'], tag or ''))
                 for o in bad[:6]:
                     print('      FAIL %s: %s' % (o.name, o.desc[:110]))
+        seen_kf = set()
         for line in run.known_lines:
-            print(line)
+            key = re.sub(r'; witness.*$', '', line)
+            if key not in seen_kf:
+                seen_kf.add(key)
+                print(line)
         for d in getattr(run, 'viol_detail', []):
             print('  detail:', d)
         if run.violations:
